@@ -190,7 +190,6 @@ func run(r *vk.Run, c Case) (reachedCrash []bool) {
 			fmt.Sscanf(parts[1], "%d", &k)
 			s.n.DS.CrashAfter(k)
 			relBefore := len(s.proxy.released)
-			logBefore := len(s.n.DS.Log())
 			if parts[0] == "crash-reap" {
 				s.reaper.SubmitTxs()
 			} else {
@@ -203,20 +202,10 @@ func run(r *vk.Run, c Case) (reachedCrash []bool) {
 				// what was released during the cut step may be lost - but only where the code cannot know better:
 				for i := relBefore; i < len(s.proxy.released); i++ {
 					s.lostAllowed[s.proxy.released[i].ID] = true
-					if s.proxy.released[i].Kind == world.SeqTxs {
-						// was the batch durably removed from the queue, and its block not yet saved?
-						removed, saved := false, false
-						for _, w := range s.n.DS.Log()[logBefore:] {
-							if w.Op == "delete" {
-								removed = true
-							}
-							if w.Op == "batch" {
-								saved = true
-							}
-						}
-						if removed && !saved {
-							takeBeforeSave = true
-						}
+					if s.proxy.released[i].Kind == world.SeqTxs && parts[0] == "crash-prod" {
+						// a non-empty batch was handed to a production step that the crash cut (how the node lays out its
+						// writes is not looked at: whether the batch is lost shows in the chain at the end)
+						takeBeforeSave = true
 					}
 				}
 			}
